@@ -181,9 +181,10 @@ def register(reg):
         data.update(kwargs)
         # + UnicodeError: the host name is IDNA-encoded for the resolver (a label of more than 63 characters cannot be:
         # design_probes/p36) - the same for the two async runtimes below
-        rt_op(it, st, "socket.create_connection", node, SOCK_ERR + ["UnicodeError"], suspends=False, **data)
+        ev = rt_op(it, st, "socket.create_connection", node, SOCK_ERR + ["UnicodeError"], suspends=False, **data)
         s = eng.alloc(st, RT_SOCK, "sock")
         eng.heap_write(st, s, "RT.closed", VBool(False))
+        ev.data["result_obj"] = s
         return s
 
     @reg.intrinsic("socket.socket")
@@ -192,7 +193,25 @@ def register(reg):
         s = eng.alloc(st, RT_SOCK, "sock")
         eng.heap_write(st, s, "RT.closed", VBool(False))
         eng.heap_write(st, s, "RT.timeout", VVal(none_val))
+        it.emit(st, "rt.socket.new", node, result_obj=s)
         return s
+
+    # the raw socket behind an anyio stream / the trio socket stream accept setsockopt like a socket does
+    @reg.attr(RT_ANYIO, "_raw_socket")
+    def raw_socket(it, st, self_v):
+        return self_v
+
+    @reg.method(RT, "setsockopt")
+    def any_setsockopt(it, st, self_v, args, kwargs, node):
+        rt_op(it, st, "sock.setsockopt", node, ["OSError"], suspends=False, sock=self_v)
+        return NONE
+
+    @reg.intrinsic("anyio.aclose_forcefully", "trio.aclose_forcefully")
+    def aclose_forcefully(it, st, args, kwargs, node):
+        # closes at once, without waiting for the peer (documented not to block for long; runs to completion under cancellation)
+        it.emit(st, "rt.close", node, obj=args[0])
+        it.eng.heap_write(st, args[0], "RT.closed", VBool(True))
+        return NONE
 
     def wrap_socket(it, st, recv, args, kwargs, node):
         eng = it.eng
@@ -253,9 +272,10 @@ def register(reg):
         @reg.intrinsic(name)
         def op(it, st, args, kwargs, node):
             eng = it.eng
-            rt_op(it, st, evname, node, raises, args=args, kwargs=kwargs)
+            ev = rt_op(it, st, evname, node, raises, args=args, kwargs=kwargs)
             s = eng.alloc(st, RT_TRIO if name.startswith("trio") else RT_ANYIO, "rtstream")
             eng.heap_write(st, s, "RT.closed", VBool(False))
+            ev.data["result_obj"] = s
             return s
 
         return op
@@ -456,15 +476,19 @@ def register(reg):
         @reg.contract
         class M(Contract):
             key = f"{cls}.{method}"
-            props = ("C16", "C15", "C10", "C20")
+            props = ("C16", "C15", "C10", "C20", "C06", "C04")
             trees = ("async",) if kind != "sync" else ("sync",)
             params = {"host": "str", "port": "int", "timeout": "val", "local_address": "val", "socket_options": "val", "path": "val"}
             raises = CONNECT + (["Cancelled"] if kind != "sync" else []) + (["RuntimeError"] if method == "connect_unix_socket" and kind == "sync" else [])
             raises_props = ("C15",)
 
-            def requires(self, c):
-                # socket_options=None is the common case; an explicit iterable of options is an opaque value here
-                return [("no_socket_options", c.eng.to_val(c.st, c.args["socket_options"]).t == none_val)]
+            # socket_options: None (the common case) or a caller-supplied iterable of option tuples (opaque)
+            variants = [("no_socket_options", {"socket_options": "none"}), ("with_socket_options", {"socket_options": "val"})]
+
+            def setup(self, c):
+                v = c.args.get("socket_options")
+                if isinstance(v, VVal):
+                    c.eng.assume(c.st, v.t != none_val)
 
             def callsite(self, c, ev):
                 out = []
@@ -501,6 +525,14 @@ def register(reg):
 
             def exc_checks(self, c, exc):
                 out = [("at_most_one_connection_attempt_per_failed_call", ("C20",), len(self._attempts(c, c.trace)) <= 1)]
+                # C06: once the runtime has handed over a connected socket / stream, a failure of what follows in here (a socket
+                # option the platform refuses, a cancellation) must close it - nobody else ever sees the object (design_probes/p37)
+                made = [e for e in c.trace if (e.name in op_events and e.data.get("outcome") == "ok" and "result_obj" in e.data) or e.name == "rt.socket.new"]
+                if made:
+                    objs = [e.data["result_obj"] for e in made]
+                    closes = c.events("rt.close")
+                    out.append(("a_runtime_stream_that_was_obtained_is_closed_when_the_call_fails", ("C06", "C04"),
+                                z3.And(*[z3.Or(*[k.data["obj"].t == o.t for k in closes]) if closes else z3.BoolVal(False) for o in objs])))
                 evs = [e for e in self._attempts(c, c.trace) if "outcome" in e.data]
                 if evs and exc.cls.startswith(EXC):
                     o = evs[-1].data["outcome"]
